@@ -37,7 +37,8 @@ Definition tobs_eqb (a b : tick_obs) : bool :=
   Bool.eqb (to_progress a) (to_progress b) && list_eqb trsp_eqb (to_top a) (to_top b) &&
   list_eqb sreq_eqb (to_bot a) (to_bot b) && list_eqb crsp_eqb (to_ctl a) (to_ctl b) &&
   (to_ntrans a =? to_ntrans b) && (to_cstate a =? to_cstate b) &&
-  Nat.eqb (to_ntop a) (to_ntop b) && Nat.eqb (to_nbot a) (to_nbot b) && Nat.eqb (to_nctl a) (to_nctl b).
+  Nat.eqb (to_ntop a) (to_ntop b) && Nat.eqb (to_nbot a) (to_nbot b) && Nat.eqb (to_nctl a) (to_nctl b) &&
+  Nat.eqb (to_ctlq a) (to_ctlq b).
 
 Definition check_case (c : case) : bool :=
   let r0 := rob_init (c_size c) (c_width c) (c_tcap c) (c_bcap c) (c_ccap c) in
@@ -113,7 +114,51 @@ Fixpoint nodupN (l : list N) : bool :=
 
 Definition rsp_to (t : trsp) : N := match t with TData _ _ r _ _ => r | TDone _ _ r _ => r end.
 
+(** control clauses on the observations alone.
+    [to_ctlq] is the length of the Control outgoing buffer right after the Tick; with the number of
+    responses drained in the previous instant it tells how many control responses THIS Tick emitted,
+    and because the buffer is a FIFO the k-th response emitted is the k-th response drained.  So the
+    tick in which every drained control response was emitted is known from the observations. *)
+Fixpoint emit_ticks (t : nat) (left : nat) (obs : list tick_obs) : list nat :=
+  match obs with
+  | [] => []
+  | ob :: rest => repeat t (to_ctlq ob - left) ++ emit_ticks (S t) (to_ctlq ob - length (to_ctl ob)) rest
+  end.
+
+Definition obs_at (obs : list tick_obs) (t : nat) : option tick_obs := nth_error obs t.
+
+(** a Drain acknowledgement is emitted by a Tick that ends Paused with an empty table; a Reset
+    acknowledgement by a Tick that ends Enabled with an empty table (the Reset also drained the Top
+    incoming buffer, so nothing can be accepted in that Tick) *)
+Definition ack_ok (obs : list tick_obs) (c : crsp) (t : nat) : bool :=
+  match obs_at obs t with
+  | None => false
+  | Some ob =>
+      if (cr_cmd c =? 1) && cr_ok c then (to_cstate ob =? 2) && (to_ntrans ob =? 0)
+      else if (cr_cmd c =? 3) && cr_ok c then (to_cstate ob =? 0) && (to_ntrans ob =? 0)
+      else true
+  end.
+
+Fixpoint acks_ok (obs : list tick_obs) (cs : list crsp) (ts : list nat) : bool :=
+  match cs, ts with
+  | c :: cs', t :: ts' => ack_ok obs c t && acks_ok obs cs' ts'
+  | [], _ => true
+  | _ :: _, [] => false                 (* a response was drained that no Tick emitted *)
+  end.
+
+(** a Tick that ends Paused leaves the number of in-flight transactions as it was; a Tick that ends
+    Draining does not increase it (nothing is accepted) *)
+Fixpoint quiesce_ok (prev : N) (obs : list tick_obs) : bool :=
+  match obs with
+  | [] => true
+  | ob :: rest =>
+      (if to_cstate ob =? 2 then to_ntrans ob =? prev
+       else if to_cstate ob =? 3 then to_ntrans ob <=? prev else true) && quiesce_ok (to_ntrans ob) rest
+  end.
+
 Definition holds_on (c : case) : bool :=
+  quiesce_ok 0 (o_ticks c) &&
+  acks_ok (o_ticks c) (flat_map to_ctl (o_ticks c)) (emit_ticks 0 0 (o_ticks c)) &&
   let scripted := flat_map i_top (c_script c) in
   if nodupN (map q_id scripted) && nodupN (map q_addr scripted) then
     let ds := delivered_top (c_script c) (o_ticks c) in
